@@ -42,6 +42,7 @@ func c03Try(c *Ctx, src, origin string, cas interface{}) {
 	c.Rule(origin)
 	ctx := plush.NewContext()
 	reparse := ""
+	var parsed *plush.Template
 	o := guarded(3*time.Second, func() (string, error) {
 		t, err := plush.NewTemplate(src)
 		if err != nil {
@@ -57,9 +58,20 @@ func c03Try(c *Ctx, src, origin string, cas interface{}) {
 			}
 			return "", err
 		}
-		// (a template that parses is not executed here: a mutated program may legitimately recurse for ever)
+		parsed = t
 		return "", nil
 	})
+	// what parses is also executed ("Parse, and therefore Render, ..."): a text the parser accepts although it is
+	// malformed must not crash the evaluator either.  (A program that runs for long is the program's own business.)
+	if parsed != nil && o.Panic == "" && !o.Hang && strings.Contains(src, "<%") {
+		ro := guarded(2*time.Second, func() (string, error) { return parsed.Exec(c03Context()) })
+		switch {
+		case ro.Hang:
+			c.Drift("a parsed input runs for long")
+		case ro.Panic != "" && !strings.HasPrefix(ro.Site, "usercode:"):
+			c.Fail("render-panic@"+ro.Site, fmt.Sprintf("%q parses, and executing it panics: %s (in %s)", trunc(src, 120), trunc(ro.Panic, 120), ro.Site), cas)
+		}
+	}
 	if reparse != "" {
 		c.Fail("failed-parse-forgotten", fmt.Sprintf("%q: %s", trunc(src, 120), reparse), cas)
 	}
@@ -73,6 +85,19 @@ func c03Try(c *Ctx, src, origin string, cas interface{}) {
 	if shape != "" && len(src) > 12 {
 		c.Sample(map[string]interface{}{"input": src, "from": origin, "returned_error": o.IsErr, "panic": o.Panic, "hang": o.Hang})
 	}
+}
+
+// c03Context: a few ordinary values under the names the token vocabulary uses.
+func c03Context() *plush.Context {
+	ctx := plush.NewContext()
+	ctx.Set("a", 1)
+	ctx.Set("b", "s")
+	ctx.Set("x", []interface{}{1, 2})
+	ctx.Set("xs", []interface{}{1, 2})
+	ctx.Set("m", map[string]interface{}{"k": 1})
+	ctx.Set("f", func(i int) int { return i })
+	ctx.Set("g", func() string { return "g" })
+	return ctx
 }
 
 // c03Shape abstracts an input to the token classes that matter for a crash signature.
